@@ -36,7 +36,7 @@ CLAIMED = {
    technique="deterministic simulation: scripted-environment schedule search over complete training runs, recurrence and frame oracles on parameter snapshots"),
  "C10": dict(level="exploration", engine="TrainSim", design="§4 C10",
    text="Simulated training of DDPG, TD3, TD3+LAP, TD7, MR.Q, PETS with adversarial Box bounds, noise and noise-clip settings and saturating policies: the environment checks every received action, the target critic's probe yields every smoothed target action (in box, within noise_clip*half-range of the target policy output on the same rows), the PETS reward-model probe yields every CEM candidate; pooled over the tier, standardised un-clipped exploration and target-smoothing perturbations must be standard normal (noise-scale clause).",
-   note="Target-action monitor covers TD3, TD3+LAP and TD7; PETS plans include a reward optimum on an action bound with a single CEM iteration. Environment wrappers that change the action space (RescaleAction) are NOT generated (seeded change C10c_1 is missed for that reason). 'Any network output however large' and the key-determined form of the noise are pure clauses, not decided. SAC is not in the property's list.",
+   note="Target-action monitor covers TD3, TD3+LAP and TD7; PETS plans include a reward optimum on an action bound with a single CEM iteration. A second additive plan kind gives DDPG / TD3 / TD3+LAP / TD7 an environment behind gymnasium's RescaleAction (a wrapper that changes the action space) with a recording layer outside it: every action passed to that environment must lie in its action space. 'Any network output however large' and the key-determined form of the noise are pure clauses, not decided. SAC is not in the property's list.",
    technique="deterministic simulation: scripted-environment schedule search over complete training runs, env-side bound monitor and module probes"),
  "C11": dict(level="exploration", engine="TrainSim + TabularSim + SchedulerSim", design="§4 C11",
    text="Protocol-checking environment (step after episode end, step counts), budgets, episode limits, starting counters, zero budgets and resume chains fed with the returned counter; parameter snapshots at the warm-up boundary; returned counter = start + executed on every exit path; continued long runs (global_step near 250/500/750/1000), restart at 0 with a re-used buffer; multi-task schedulers (train_smt / train_active_mt / train_uts) with a contract-faithful stub backbone and real backbones: per-task totals = executed steps <= budget; task selectors (round robin, four D-UCB strategies, mapb.DUCB) against a float64 discounted-UCB reference; generate_rollout on terminating and truncating episodes.",
